@@ -947,6 +947,12 @@ class Interp:
 
     def check_live(self, st, mid, idx, prim):
         """O2: slot is live"""
+        if st.aux and not isinstance(idx, int):
+            # len - idx is carried as an auxiliary difference term and is positive: idx < len
+            ms0 = st.maps[mid]
+            d = slots.aux_get(st, ms0.len, idx)
+            if d is not None and st.zone.entails_lt(0, d):
+                st.zone.add_lt(idx, ms0.len)
         lv = slots.live(st, mid, idx)
         ms = st.maps[mid]
         self.oblig('O2', lv is True, prim,
@@ -1146,11 +1152,15 @@ class Interp:
                 z.add_le(y, x)
                 if isinstance(y, int):
                     z.add_eq(x, t, y)
+                    if z.sat:
+                        slots.note_shift(st, x, t, -y)
                 else:
                     z.add_le(t, x)
             else:
                 if isinstance(y, int):
                     z.add_eq(t, x, y)
+                    if z.sat:
+                        slots.note_shift(st, x, t, y)
                 else:
                     z.add_le(x, t)
                     z.add_le(y, t)
@@ -1443,10 +1453,12 @@ class Interp:
             if base == 'Add':
                 if isinstance(y, int) and z.has_strict_upper_term(x, y):
                     z.add_eq(t, x, y)
+                    slots.note_shift(st, x, t, y)
             else:
                 if z.entails_le(y, x):
                     if isinstance(y, int):
                         z.add_eq(x, t, y)
+                        slots.note_shift(st, x, t, -y)
                     else:
                         z.add_le(t, x)
             return I(t)
